@@ -284,22 +284,13 @@ def run(ctx):
     ctx.rule("R3.4", "the identifier (name, hash) distinguishes same-name descriptors only through the hash input, which must be an injective "
                      "encoding of the field list: adjacent variable-length parts need a separator outside the alphabets of field and type names")
     ch = ctx.anchor_func("flow.record.base.RecordDescriptor.calc_descriptor_hash")
-    from .c02 import _hash_input_order
+    from .c02 import hash_input_order
 
     p_name, p_fields = func_params(ch)[0], func_params(ch)[1]
-    src = None
-    for st in walk_no_nested(ch):
-        if isinstance(st, ast.Assign) and isinstance(st.targets[0], ast.Name) and p_name in {n.id for n in ast.walk(st.value) if isinstance(n, ast.Name)}:
-            src = st.value
-    if src is None:
+    hcalls = [c for c in calls_in(ch) if isinstance(prog.resolve_expr(ch._module, c.func), Ref) and prog.resolve_expr(ch._module, c.func).name.startswith("hashlib.") and c.args]
+    if len(hcalls) != 1:
         raise AnalysisError("R3.4: hash input expression not found")
-    from .c02 import _accumulated_text
-
-    first_target = None
-    for st in walk_no_nested(ch):
-        if isinstance(st, ast.Assign) and st.value is src and isinstance(st.targets[0], ast.Name):
-            first_target = st.targets[0]
-    order = _hash_input_order(_accumulated_text(ch, first_target) if first_target is not None else src, p_name, p_fields, ch)
+    order = hash_input_order(ch, hcalls[0].args[0], p_name, p_fields)
     # alphabets: field names [A-Za-z0-9_], type names [A-Za-z0-9_.] + "[]"
     seps_ok = True
     var_parts = [o for o in order if o in ("name", "field.name", "field.type")]
